@@ -14,6 +14,11 @@ FnRefBedRow      bed2probes' column code per row: gene (the file's or "-"), log2
 FnRefSummarize   summarize_info per bin (per column of the matrices: translator key `columns`): biweight_location of the log2 /
                  depth column, biweight_midvariance(column, initial=the log2 centre), the result dict
                                                                   (C05_source_summarize, C05_source_summarize_spread)
+FnRefBlock       load_sample_block's two matrices per bin: the initial lists (flat pseudo-sample first) and one iteration of
+                 `for fname in filenames[1:]` (two appends; the bin-identity check raises)   (C05_source_block_columns)
+FnRefBias        bias_correct_logr's dispatch (low-coverage test, the three corrections in order), tables as opaque ids; the
+                 statements around it shape-checked with `ast`
+                                          (C05_source_bias_off, C05_source_bias_mostly_low, C05_source_bias_corrections)
 FnRefSexesInfer  infer_sexes' loop, one iteration (dict entry `sexes[cnarr.sample_id]` carried as an optional boolean)
                                                                               (C05_source_infer_sexes)
 FnRefSexesMerge  do_reference's loop over the antitarget calls, one iteration   (C05_source_sexes_merge_step, C05_source_sexes_inferred)
@@ -29,6 +34,10 @@ translator refuses the module, which the check reports as a broken tie):
                   gone) ; `table["log2"] = 0.0` -> `-1.0` KILLED
   FnRefSummarize  `initial=i` dropped REFUSED (called with other arguments than its declared type) ; depth centre taken from
                   all_logr KILLED ; "log2": depth_centers KILLED ; `zip(all_logr.T, depth_centers)` KILLED ; axis 0 -> 1 REFUSED
+  FnRefBlock      `ref_flat_logr,` -> `-ref_flat_logr,` KILLED ; the loop's `all_logr.append(` -> `all_depths.append(` KILLED ;
+                  the appended depth `cnarrx["depth"] if ...` -> `cnarrx["log2"] if ...` KILLED
+  FnRefBias       `if fix_edge:` -> `if not fix_edge:` KILLED ; `.sum() <= len(cnarr) // 2` -> `>` KILLED ; `"gc" in ref_columns and
+                  fix_gc` -> `or` KILLED ; the shift_sex_chroms call removed REFUSED (shape check)
   FnRefSexesMerge `if t_is_xx is None` -> `is not None` KILLED ; `t_is_xx != a_is_xx` -> `==` KILLED ; the override storing
                   t_is_xx REFUSED (branches of different types B / OB)
   FnRefSexesInfer `if is_xx is not None` -> `is None` KILLED ; `if cnarr:` -> `if not cnarr:` KILLED ; `= is_xx` -> `= ~is_xx`
@@ -39,6 +48,39 @@ translator refuses the module, which the check reports as a broken tie):
 _LSB = ['filenames', 'fa_fname', 'is_haploid_x', 'diploid_parx_genome', 'sexes', 'skip_low', 'fix_gc', 'fix_edge', 'fix_rmask']
 _DOREF = ['target_fnames', 'antitarget_fnames', 'fa_fname', 'is_haploid_x_reference', 'diploid_parx_genome', 'female_samples',
           'do_gc', 'do_edge', 'do_rmask', 'do_cluster', 'min_cluster_size']
+_BCL = ('bias_correct_logr(%s, ref_columns, ref_edge_bias, ref_flat_logr, sexes, is_chr_x, is_chr_y, fix_gc, fix_edge, '
+        'fix_rmask, skip_low, diploid_parx_genome)')
+
+
+def _bias_shape():
+    """bias_correct_logr is: docstring; cnarr.center_all(skip_low=skip_low, diploid_parx_genome=diploid_parx_genome);
+    shift_sex_chroms(cnarr, sexes, ref_flat_logr, is_chr_x, is_chr_y); if <test>: <warning> else: <corrections>;
+    return cnarr['log2']   ->  prefix that finds the if statement (fail-closed: an unfindable prefix otherwise)"""
+    import ast, os, sys
+    repo = os.environ.get('CNVKIT_REPO', '/repo')
+    for name in ('py2v_fn', '__main__'):
+        m = sys.modules.get(name)
+        if m is not None and hasattr(m, 'REPO') and hasattr(m, 'FnTranslator'):
+            repo = m.REPO
+    try:
+        fn = [n for n in ast.walk(ast.parse(open(os.path.join(repo, 'cnvlib/reference.py')).read()))
+              if isinstance(n, ast.FunctionDef) and n.name == 'bias_correct_logr'][0]
+        body = [s for s in fn.body if not (isinstance(s, ast.Expr) and isinstance(s.value, ast.Constant))]
+        if len(body) != 4:
+            raise ValueError('%d statements' % len(body))
+        c, sh, iff, ret = body
+        if ast.unparse(c) != 'cnarr.center_all(skip_low=skip_low, diploid_parx_genome=diploid_parx_genome)':
+            raise ValueError('first statement is not the in-place centring')
+        if ast.unparse(sh) != 'shift_sex_chroms(cnarr, sexes, ref_flat_logr, is_chr_x, is_chr_y)':
+            raise ValueError('second statement is not the in-place sex-chromosome shift')
+        if not (isinstance(iff, ast.If) and iff.orelse):
+            raise ValueError('third statement is not if / else')
+        if ast.unparse(ret) != "return cnarr['log2']":
+            raise ValueError("last statement is not return cnarr['log2']")
+        return 'if '
+    except Exception as exc:   # noqa -- fail closed
+        return '<cnvlib/reference.py bias_correct_logr no longer has the expected shape: %s>' % exc
+
 
 MODULES = {
     'FnRefColumns': ('cnvlib/reference.py', [
@@ -104,6 +146,42 @@ MODULES = {
                      ('descriptives.biweight_location', 'F:LQ>Q', 'biweight_location'),
                      ('descriptives.biweight_midvariance', 'F:LQ,initial=Q>Q', 'biweight_midvariance')],
              returns=["result['log2']", "result['depth']", "result['spread']"], ret=['Q', 'Q', 'Q']),
+    ]),
+    # load_sample_block, how the two matrices are put together, per bin (all_depths / all_logr are lists of rows; per bin each
+    # is the list of the bin's values, one per row): the initial lists (the first file's depth -- the depth column or
+    # np.exp2(log2) --; the FLAT pseudo-sample first, then the first file's corrected log2) and ONE ITERATION of
+    # `for fname in filenames[1:]` (the bin-identity check raises: recorded; each file appends its depth and its corrected
+    # log2).  bias_correct_logr(...) of a file is the bin's corrected log2, an input.
+    'FnRefBlock': ('cnvlib/reference.py', [
+        dict(name='load_sample_block', coq='fn_block_init', py_params=_LSB,
+             fragment=dict(first='all_depths = [', last='all_logr = ['),
+             params=[("'depth' in cnarr1", 'B', 'has_depth'), ("cnarr1['depth']", 'Q', 'depth'), ("cnarr1['log2']", 'Q', 'log2_'),
+                     ('ref_flat_logr', 'Q'), (_BCL % 'cnarr1', 'Q', 'corrected')],
+             returns=['all_depths', 'all_logr'], ret=['LQ', 'LQ']),
+        dict(name='load_sample_block', coq='fn_block_step', py_params=_LSB,
+             loop=dict(first='for fname in filenames[1:]:\n    logging.info('), carried=[('all_depths', 'LQ'), ('all_logr', 'LQ')],
+             params=[('all_depths', 'LQ'), ('all_logr', 'LQ'), ('read_cna(fname)', 'B', 'file_has_rows'),
+                     ("'depth' in cnarrx", 'B', 'has_depth'), ("cnarrx['depth']", 'Q', 'depth'), ("cnarrx['log2']", 'Q', 'log2_'),
+                     (_BCL % 'cnarrx', 'Q', 'corrected')],
+             ret=['LQ', 'LQ']),
+    ]),
+    # bias_correct_logr, which table's log2 is returned: the statement `if (<covered rows>).sum() <= len(cnarr) // 2: warn
+    # else: if "gc" in ref_columns and fix_gc: cnarr = fix.center_by_window(..) ...` with tables as opaque ids (as in fix.py's
+    # FnFixCorrections: the table on entry, what each center_by_window call returns at its site).  The statements around
+    # it (centre in place, shift the sex chromosomes in place, ..., return cnarr["log2"]) are checked with `ast` (_bias_shape).
+    'FnRefBias': ('cnvlib/reference.py', [
+        dict(name='bias_correct_logr', coq='fn_bias_table',
+             py_params=['cnarr', 'ref_columns', 'ref_edge_bias', 'ref_flat_logr', 'sexes', 'is_chr_x', 'is_chr_y', 'fix_gc',
+                        'fix_edge', 'fix_rmask', 'skip_low', 'diploid_parx_genome'],
+             fragment=dict(first=_bias_shape(), last=_bias_shape()),
+             params=[('cnarr', 'Z', 'cnarr_id'),
+                     ("(cnarr['log2'] > params.NULL_LOG2_COVERAGE - params.MIN_REF_COVERAGE).sum()", 'Z', 'n_covered'),
+                     ('len(cnarr)', 'Z', 'n_rows'), ("'gc' in ref_columns", 'B', 'has_gc'), ("'rmask' in ref_columns", 'B', 'has_rmask'),
+                     ('fix_gc', 'B'), ('fix_rmask', 'B'), ('fix_edge', 'B'),
+                     ("fix.center_by_window(cnarr, 0.1, ref_columns['gc'])", 'Z', 'by_gc'),
+                     ("fix.center_by_window(cnarr, 0.1, ref_columns['rmask'])", 'Z', 'by_rmask'),
+                     ('fix.center_by_window(cnarr, 0.1, ref_edge_bias)', 'Z', 'by_edge')],
+             returns=['cnarr'], ret='Z'),
     ]),
     # bed2probes, the column code per row: the gene name (the file's, or "-"), log2 = 0.0, spread = 0.0
     'FnRefBedRow': ('cnvlib/reference.py', [
